@@ -3,8 +3,12 @@
 // scope it is evaluated in through Scope.Parents() and reports Scope.Synchronized() of every scope it visits, in
 // walk order.  The scenario is flattened into the operations of the model (one list per routine, routines and
 // scopes numbered in the order the model creates them); Coq executes them and must predict every report.
-// Touches (reads and writes of let variables that are visible, hence possibly shared) give the race detector
-// something to look at: in the model they are no operation at all.
+// Touches ((setq v (+ v 1)) on a visible variable: a let variable, or the variable of a with-slots form - a *Ref
+// binding in the scope of the with-slots body) are the scope operations of coq/C17/ScopeLockModel.v: a Scope.get and
+// a Scope.set that walk from the current scope to the scope the variable is bound in, taking and releasing the mutex
+// of every scope on the way that run has shared.  The model says they complete and leave nothing locked; a routine
+// that does not get to its next probe / its report is caught by the worker's watchdog (the program is the failing
+// input).  They also give the race detector something to look at.
 //
 // History shapes: a "spawner" is a closure (a lambda made inside a let and kept in a variable) whose body starts
 // routines; it is CALLED SEVERAL TIMES, from different places (directly, from a fresh let, from two nested lets, from
@@ -22,7 +26,8 @@ import (
 )
 
 type snode struct {
-	kind string // let | call | deepcall | run | obs | touch | spawner | callf | inst | send
+	kind string // let | slots | call | deepcall | run | obs | touch | spawner | callf | inst | send
+	vn   string // let / slots: the variable the node binds (slots: a with-slots variable, a *Ref in the scope's map)
 	id   int    // absolute id (probe tag, variable name); in a template: the local id
 	kids []*snode
 	v    string // touch: the variable
@@ -78,11 +83,19 @@ func (sc *scopeScenario) gen(r *common.Rng, depth int, vars []string, budget *in
 	for k := 0; k < n && *budget > 0; k++ {
 		*budget--
 		nd := &snode{id: newID()}
-		x := r.Intn(100)
+		x := r.Intn(110)
 		switch {
+		case x >= 100 && depth < 4:
+			// (with-slots ((s v)) o ...): a scope whose binding is a *Ref; routines started below it share it
+			nd.kind = "slots"
+			nd.vn = "s" + sc.varName(nd.id, t)
+			nd.kids = sc.gen(r, depth+1, append(append([]string(nil), vars...), nd.vn), budget, t, targets)
+		case x >= 100:
+			nd.kind = "obs"
 		case x < 18 && depth < 4:
 			nd.kind = "let"
-			nd.kids = sc.gen(r, depth+1, append(append([]string(nil), vars...), sc.varName(nd.id, t)), budget, t, targets)
+			nd.vn = sc.varName(nd.id, t)
+			nd.kids = sc.gen(r, depth+1, append(append([]string(nil), vars...), nd.vn), budget, t, targets)
 		case x < 28 && depth < 4:
 			nd.kind = "call"
 			nd.kids = sc.gen(r, depth+1, vars, budget, t, targets)
@@ -193,6 +206,11 @@ func (sc *scopeScenario) lisp(b *strings.Builder, nodes []*snode, t *snode) {
 			fmt.Fprintf(b, " (let ((%s 0))", vn(nd.id))
 			sc.lisp(b, nd.kids, t)
 			b.WriteString(")")
+		case "slots":
+			// the instance is synchronized: its slot map has a lock of its own (the routines touch the slot unguarded)
+			fmt.Fprintf(b, " (let ((o%s (make-instance 'c17cell))) (set-synchronized o%s t) (with-slots ((s%s v)) o%s", vn(nd.id), vn(nd.id), vn(nd.id), vn(nd.id))
+			sc.lisp(b, nd.kids, t)
+			b.WriteString("))")
 		case "call":
 			fmt.Fprintf(b, " (funcall (lambda (p%s)", vn(nd.id))
 			sc.lisp(b, nd.kids, t)
@@ -254,8 +272,9 @@ func (sc *scopeScenario) flatten() (codes []string, rids []int, probes [][]int) 
 		kids  []*snode
 		spawn int // scope the routine is started in
 		rid   int
+		env   map[string]int // variable -> the scope it is bound in, as seen where the routine is started
 	}
-	queue := []pending{{kids: sc.root, spawn: 0, rid: 0}}
+	queue := []pending{{kids: sc.root, spawn: 0, rid: 0, env: map[string]int{}}}
 	codes = append(codes, "[XOp SRun]") // the harness evaluates the (run ...) form of the root routine in scope 0
 	nscopes := 1
 	scopeOf := map[*snode]int{} // spawner: the scope its closure is made in; inst: the instance's scope
@@ -265,6 +284,7 @@ func (sc *scopeScenario) flatten() (codes []string, rids []int, probes [][]int) 
 		var ops []string
 		var obs []int
 		stack := []int{cur.spawn}
+		env := cur.env
 		top := func() int { return stack[len(stack)-1] }
 		push := func(op string) {
 			ops = append(ops, "XOp "+op)
@@ -281,8 +301,29 @@ func (sc *scopeScenario) flatten() (codes []string, rids []int, probes [][]int) 
 				switch nd.kind {
 				case "let":
 					push("SLet")
+					if nd.vn != "" {
+						env[nd.vn] = top()
+					}
 					walk(nd.kids)
 					pop()
+				case "slots":
+					push("SLet") // the let that holds the instance
+					push("SLet") // WithSlots.Call: ns := s.NewScope(), the *Ref is bound there
+					env[nd.vn] = top()
+					walk(nd.kids)
+					pop()
+					pop()
+				case "touch":
+					// (setq v (+ v 1)): Scope.get, then Scope.set, both from the current scope
+					if sco, ok := env[nd.v]; ok {
+						bk := "BPlain"
+						if strings.HasPrefix(nd.v, "s") {
+							bk = "BRef"
+						}
+						ops = append(ops, fmt.Sprintf("XAcc KGet %d %s", sco, bk), fmt.Sprintf("XAcc KSet %d %s", sco, bk))
+					} else {
+						ops = append(ops, "XAcc KGet 999999 BPlain") // generator mistake: shows as code 3
+					}
 				case "call":
 					push(fmt.Sprintf("(SCall %d)", top()))
 					walk(nd.kids)
@@ -298,7 +339,11 @@ func (sc *scopeScenario) flatten() (codes []string, rids []int, probes [][]int) 
 					pop()
 				case "run":
 					ops = append(ops, "XOp SRun")
-					queue = append(queue, pending{kids: nd.kids, spawn: top(), rid: nd.lispRid})
+					envCopy := make(map[string]int, len(env))
+					for k, v := range env {
+						envCopy[k] = v
+					}
+					queue = append(queue, pending{kids: nd.kids, spawn: top(), rid: nd.lispRid, env: envCopy})
 				case "obs":
 					ops = append(ops, fmt.Sprintf("XObs %d", nd.id))
 					obs = append(obs, nd.id)
@@ -436,6 +481,62 @@ func sysScenarios(r *common.Rng) []scopeJob {
 					sc.nextID++
 					sc.root = []*snode{sp, {kind: "obs", id: sc.nextID}}
 					out = append(out, sc.job(r, fmt.Sprintf("scopes-sys-%s", kind)))
+				}
+			}
+		}
+	}
+	return out
+}
+
+// sysLockScenarios: the systematic block for the scope mutex (coq/C17/ScopeLockModel.v), independent of the random
+// seed.  binding (a let variable / a with-slots variable) x where run is called (in the body of the binding form
+// itself / in a let below it / in the body of a lambda called below it / in a let and a lambda below it) x who assigns
+// the variable after the routine was started (the creator / the routine / both) x the routine is started before /
+// after a first assignment.  Everybody probes and reports afterwards - which takes lookups through the shared scope.
+func sysLockScenarios(r *common.Rng) []scopeJob {
+	var out []scopeJob
+	for _, bind := range []string{"let", "slots"} {
+		for place := 0; place < 4; place++ {
+			for who := 0; who < 3; who++ {
+				for early := 0; early < 2; early++ {
+					scopeSerial++
+					sc := &scopeScenario{serial: scopeSerial}
+					id := func() int { sc.nextID++; return sc.nextID }
+					obs := func() *snode { return &snode{kind: "obs", id: id()} }
+					b := &snode{kind: bind, id: id()}
+					b.vn = sc.varName(b.id, nil)
+					if bind == "slots" {
+						b.vn = "s" + b.vn
+					}
+					touch := func() *snode { return &snode{kind: "touch", id: id(), v: b.vn} }
+					run := &snode{kind: "run", id: id()}
+					sc.nrun++
+					if who != 0 {
+						run.kids = append(run.kids, touch())
+					}
+					run.kids = append(run.kids, obs(), touch(), obs())
+					var body []*snode
+					if early == 1 {
+						body = append(body, touch())
+					}
+					body = append(body, run)
+					if who != 1 {
+						body = append(body, touch())
+					}
+					body = append(body, obs())
+					switch place {
+					case 0:
+						b.kids = body
+					case 1:
+						b.kids = []*snode{{kind: "let", id: id(), kids: body}}
+					case 2:
+						b.kids = []*snode{{kind: "call", id: id(), kids: body}}
+					case 3:
+						b.kids = []*snode{{kind: "let", id: id(), kids: []*snode{{kind: "call", id: id(), kids: body}}}}
+					}
+					b.kids = append(b.kids, touch(), obs())
+					sc.root = []*snode{b, obs()}
+					out = append(out, sc.job(r, "scopes-sys-lock-"+bind))
 				}
 			}
 		}
